@@ -71,6 +71,9 @@ def build_harness(ctx, race=False):
     cmd = ['go', 'build', '-tags', 'verif']
     if race:
         cmd.append('-race')
+    if os.environ.get('VERIF_COVER'):
+        # tools/coverage.sh only: statement coverage of the library under the conformance harness (GOCOVERDIR collects it)
+        cmd += ['-cover', '-coverpkg=github.com/asticode/go-astits']
     out = ctx.harness + ('-race' if race else '')
     cmd += ['-o', out, '.']
     p = subprocess.run(cmd, cwd=src, env=GOENV, capture_output=True, text=True)
@@ -380,7 +383,7 @@ def write_evidence(ctx, level, coverage, violations, assumptions):
         'coverage': coverage, 'assumptions': assumptions, 'wall_s': round(time.time() - ctx.t0, 1), 'violations': violations,
     }
     edir = os.path.join(ROOT, 'evidence')
-    if os.environ.get('VERIF_REPO', '/repo') != '/repo':
+    if os.environ.get('VERIF_REPO', '/repo') != '/repo' or os.environ.get('VERIF_COVER'):
         edir = '/tmp/verif-mutation-evidence'     # a mutation-testing run never touches the committed evidence
     os.makedirs(edir, exist_ok=True)
     with open(os.path.join(edir, ctx.prop + '.json'), 'w') as f:
